@@ -328,6 +328,36 @@ pub fn run(ctx: &Ctx) -> i32 {
             Err(_) => {}
         }
     }));
+    // a valid argument followed by anything outside the argument language is refused as a whole
+    {
+        let valid = ["644", "0755", "7777", "u+x", "a=rw", "go-w", "u+r,g+w", "ug+rw,o=r"];
+        let tails = ["8", "9", "s", "t", "X", "x9", ",", ",+x", ",8", "+", "=q", " ", ";", "u", ",,u+x"];
+        let mut a = Acc::new();
+        for p in ["", "-", "/"] {
+            for v in valid {
+                for t in tails {
+                    let arg = format!("{p}{v}{t}");
+                    let input = format!("-perm '{arg}'");
+                    a.states += 1;
+                    a.transitions += 1;
+                    // the reference decides what is outside the language (some tails extend a clause validly)
+                    if !matches!(speclib::textspec::parse(&input), speclib::textspec::Spec::Reject(_)) {
+                        continue;
+                    }
+                    match parse_spec(&input) {
+                        PS::Ok(_, t) => a.violate(Violation::new(
+                            "C08:argument-with-trailing-text-accepted",
+                            format!("{input:?} is accepted as {}; the text after {v:?} is not part of a permission argument", t.show()),
+                            json!({"kind": "perm-arg", "arg": arg}),
+                        )),
+                        PS::Panic(e) => a.violate(Violation::new(format!("C08:panic:{}", panic_site(&e)), format!("{input}: {e}"), json!({"kind": "perm-arg", "arg": arg}))),
+                        PS::Err(_) => {}
+                    }
+                }
+            }
+        }
+        acc = acc.merge(a);
+    }
     // single clauses under every prefix
     acc = acc.merge(par_cases(cl.len() as u64 * 3, |i, acc| {
         let c = &cl[(i / 3) as usize];
